@@ -194,7 +194,7 @@ def ticks_in(writes: List[Any]) -> List[Dict[str, Any]]:
     return [w[2] for w in writes if w[0] == "tick"]
 
 
-def run_restarted_from_writes(make_workflow: Any, writes: List[Any], idle_timeout: Any = 1000, horizon: int = 12) -> Dict[str, Any]:
+def run_restarted_from_writes(make_workflow: Any, writes: List[Any], idle_timeout: Any = 1000, horizon: int = 12, record: bool = False) -> Dict[str, Any]:
     """Server restart after a crash that happened right after the last of ``writes`` reached the store: a fresh store gets
     exactly these writes (handler row states, ticks, events), a fresh stack is started over it."""
     from llama_agents.server._store.memory_workflow_store import MemoryWorkflowStore
@@ -208,7 +208,7 @@ def run_restarted_from_writes(make_workflow: Any, writes: List[Any], idle_timeou
     writes = native(lambda: [(w[0], w[1].model_copy(deep=True)) if w[0] == "update" else w for w in writes])
 
     async def main() -> None:
-        store = MemoryWorkflowStore()
+        store = make_recording_store() if record else MemoryWorkflowStore()
         for w in writes:
             if w[0] == "update":
                 await store.update(w[1])
@@ -227,6 +227,8 @@ def run_restarted_from_writes(make_workflow: Any, writes: List[Any], idle_timeou
             except Exception as e:  # noqa: BLE001
                 obs["errors"].append(f"resume task: {type(e).__name__}: {e}")
         await _settle(st, horizon, obs, loop, 0)
+        if record:
+            obs["writes"] = list(store.writes)     # the replayed prefix followed by what this life wrote itself
         await st.service.stop()
 
     _with_env(loop, main)
